@@ -14,8 +14,14 @@ META = {
 OPS = ["run", "run_atomic", "kill", "next"]
 
 
-def step(pid, op, nf, maxaq, nscript, groups, timeout=2400, mem=12, extra=None, role="prove", mutate=None, name=None):
+SOPS = ["none", "run", "run_atomic", "kill", "timeout"]
+
+
+def step(pid, op, nf, maxaq, nscript, groups, timeout=2400, mem=12, extra=None, role="prove", mutate=None, name=None, sop=None):
     d = {"K": 1, "NF": nf, "NSCRIPT": nscript, "STEP_OP": op, "MAXAQ": maxaq}
+    if sop is not None:
+        d["SCRIPT_OP"] = sop
+        name = name or "%s-step-next-body-%s-nf%d-aq%d" % (pid, SOPS[sop], nf, maxaq)
     for g in groups:
         d[g] = None
     d.update(extra or {})
